@@ -58,6 +58,12 @@ def call(op: str, a: dict) -> dict:
                 F, G = fg.evaluate(K, X, W, f, g)
                 F2 = fg.evaluate(K, X, W, f, None)
                 G2 = fg.evaluate(K, X, W, None, g)
+                # a request for both answers gets both, also when the objective is exactly zero (every cell masked out)
+                r0 = fg.evaluate(K, X, np.zeros(tuple(X.shape)), f, g)
+                if not (isinstance(r0, tuple) and len(r0) == 2 and len(r0[1]) == len(K.factor_matrices)):
+                    return {"st": "joint-evaluation-with-all-cells-masked-does-not-return-objective-and-gradients"}
+                if r0[0] == 0 and not all(np.all(np.asarray(m) == 0) for m in r0[1]):
+                    return {"st": "gradient-of-masked-cells-not-zero"}
                 # the kernel behind "all modes at once" against "one mode at a time", also for integer-typed factor
                 # matrices and a tensor with non-integer entries (the element-gradient tensor is such a tensor)
                 Yt = ttb.tensor(np.asarray(X.full().data if hasattr(X, "subs") else X.data, dtype=float) * 0.5 + 0.25)
